@@ -357,6 +357,152 @@ def sharing_probes(rng):
     return [p for p in P if "skip" not in p[3]]
 
 
+
+# ---------------------------------------------------------------- several root selectors over one input value
+# -r E is documented as BEGINFILE { $ = E } for each selector in turn: every root is a value of its own, so a write made
+# while the first root is processed is not there when the next root is processed, however the selected parts overlap.
+
+SEL_PATHS = [[], ["items"], ["items", 0.0], ["items", 1.0], ["items", -1.0], ["meta"], ["deep"], ["deep", "items"], ["deep", "items", 0.0]]
+WRITE_PATHS = [["seen"], ["tag"], ["n"], ["tags", 0.0], ["tags", 2.0], ["sub", "k"], ["items", 0.0, "seen"], ["items", 1.0, "tag"],
+               ["items", -1.0, "seen"], ["meta", "seen"], ["meta", "tags", 1.0], ["deep", "items", 0.0, "seen"], ["deep", "seen"],
+               ["id"], ["fresh", "list", 1.0]]
+
+
+def sel_doc(rng):
+    def item(i):
+        return {"id": float(i), "seen": 0.0, "tag": rng.choice(["a", "b", ""]), "tags": [rng.choice(["x", "y", 1.0]) for _ in range(rng.randint(0, 3))]}
+    nid = [0]
+
+    def items():
+        out = []
+        for _ in range(rng.randint(1, 3)):
+            nid[0] += 1
+            out.append(item(nid[0]))
+        return out
+    return {"items": items(), "meta": dict(item(90), n=1.0), "deep": {"items": items(), "seen": 0.0}, "seen": 0.0, "id": 99.0}
+
+
+def prefix(a, b):
+    return a[:len(b)] == b or b[:len(a)] == a
+
+
+def selectors_case(rng):
+    """(program, selectors, input text, expected stdout, overlapping?) or None"""
+    doc = sel_doc(rng)
+    nsel = rng.choice([2, 2, 2, 3])
+    sels = [rng.choice(SEL_PATHS)]
+    while len(sels) < nsel:
+        c = rng.choice(SEL_PATHS)
+        if rng.random() < 0.75 and not any(prefix(c, s_) for s_ in sels):
+            continue                # mostly overlapping selections (equal, or one inside the other)
+        sels.append(c)
+    stmts = []
+    for _ in range(rng.randint(1, 4)):
+        keys = rng.choice(WRITE_PATHS)
+        w = rng.random()
+        if w < 0.35:
+            stmts.append((keys, "++", None))
+        elif w < 0.7:
+            stmts.append((keys, "=", rng.choice([1.0, 7.0, "w", True, [1.0], {"k": 2.0}])))
+        else:
+            stmts.append((keys, rng.choice(["+=", "-=", "*="]), rng.choice([1.0, 2.0, 10.0])))
+    src = []
+    for keys, op, val in stmts:
+        pth = treeref.src_path("$", keys, rng)
+        src.append(pth + "++" if op == "++" else "%s %s %s" % (pth, op, pyref.literal(val)))
+    form = rng.choice(["rule", "rule", "beginfile"])
+    out = []
+    try:
+        roots = []
+        for sp in sels:
+            r_ = treeref.read({"$": copy.deepcopy(doc)}, "$", sp)      # every selector sees the value as it was read
+            roots.append(r_)
+        for root in roots:
+            elems = root if (form == "rule" and isinstance(root, list)) else [root]
+            if any(not isinstance(e, dict) for e in elems):
+                return None
+            for e in elems:
+                env = {"$": e}
+                out.append("< " + pyref.pretty(env["$"]))
+                for keys, op, val in stmts:
+                    if op == "++":
+                        treeref.store(env, "$", keys, pyref.num(treeref.read(env, "$", keys)) + 1)
+                    elif op == "=":
+                        treeref.store(env, "$", keys, copy.deepcopy(val))
+                    else:
+                        treeref.store(env, "$", keys, pyref.binop(op[0], treeref.read(env, "$", keys), val))
+                out.append("> " + pyref.pretty(env["$"]))
+    except (RErr, Unspecified, pyref.RuntimeErr):
+        return None
+    body = "print '<', $\n " + "\n ".join(src) + "\n print '>', $"
+    prog = ("{ %s }" if form == "rule" else "BEGINFILE { %s }") % body
+    overlap = any(prefix(a, b) for i, a in enumerate(sels) for b in sels[i + 1:])
+    return prog, [treeref.src_path("$", sp) for sp in sels], json.dumps(doc), "".join(l + "\n" for l in out), overlap
+
+
+# ---------------------------------------------------------------- compound assignment whose TARGET has a side effect
+# `a op= b` means `a = a op b`: the two spellings must behave identically, also when evaluating a changes something
+# (a[i++] += 10 advances i exactly as a[i++] = a[i++] + 10 does).  Judged as a pair: same output, same outcome.
+
+def compound_pairs(rng):
+    """list of (setup, target, rhs, show): statements before, the target text, the right-hand side, what to print afterwards"""
+    n = rng.randint(3, 6)
+    arr = [float(rng.randint(1, 9)) for _ in range(n)]
+    la = pyref.literal(arr)
+    i0 = rng.randint(0, n - 3)
+    keys = rng.sample(["a", "b", "c", "d"], 3)
+    lo = "{" + ", ".join("%s: %d" % (k, rng.randint(1, 9)) for k in keys) + "}"
+    loo = "{" + ", ".join("%s: {v: %d}" % (k, rng.randint(1, 9)) for k in keys) + "}"
+    q = "[" + ", ".join(str(rng.randint(0, n - 1)) for _ in range(4)) + "]"
+    kf = "function nk() { c_++\n return ks[c_ - 1] }\nfunction say(v) { print 'say', v\n return v }\n"
+    ks = "ks = [" + ", ".join("'%s'" % k for k in keys + keys) + "]"
+    T = [
+        ("arr = %s\n i = %d" % (la, i0), "arr[i++]", "arr, i"),
+        ("arr = %s\n i = %d" % (la, i0), "arr[++i]", "arr, i"),
+        ("arr = %s\n i = %d" % (la, n - 1), "arr[i--]", "arr, i"),
+        ("arr = %s\n i = %d" % (la, n - 1), "arr[--i]", "arr, i"),
+        ("arr = %s\n n = %d" % (la, i0), "arr[n = n + 1]", "arr, n"),
+        ("arr = %s\n i = %d" % (la, i0), "$.arr[i++]", "$.arr, i"),
+        ("arr = %s\n i = %d" % (la, i0), "$.o.list[i++]", "$.o, i"),
+        ("o = %s\n %s\n c_ = 0" % (lo, ks), "o[nk()]", "o, c_"),
+        ("o = %s\n %s\n c_ = 0" % (loo, ks), "o[nk()].v", "o, c_"),
+        ("x = %s\n q = %s" % (la, q), "x[q.pop()]", "x, q.length()"),
+        ("x = %s\n q = %s" % (la, q), "x[q.popfirst()]", "x, q.length()"),
+        ("m = [[1, 2, 3], [4, 5, 6], [7, 8, 9]]\n i = 0\n j = 0", "m[i++][j++]", "m, i, j"),
+        ("m = [[1, 2, 3], [4, 5, 6], [7, 8, 9]]\n i = 0", "m[i++][i++]", "m, i"),
+        ("w = %s" % la, "w[say(%d)]" % i0, "w"),
+        ("arr = %s\n i = %d" % (la, i0), "arr[i++ + 1]", "arr, i"),
+        ("arr = %s\n i = %d" % (la, n - 2), "arr[i++]", "arr, i"),               # the re-read lands past the end: null + b
+        ("u_ = 0\n i = 0", "nw[i++]", "nw, i"),                                   # an unset container
+        ("o = %s\n i = 0" % lo, "o['k' + i++]", "o, i"),
+    ]
+    out = []
+    for setup, target, show in T:
+        op = rng.choice(["+", "+", "-", "*", "/"])
+        rhs = rng.choice(["10", "2", "0.5", "i + 1" if " i =" in setup or setup.startswith("i =") else "3", "'s'" if op == "+" else "4"])
+        out.append((kf, setup, target, op, rhs, show))
+    return out
+
+
+def compound_programs(kf, setup, target, op, rhs, show, host):
+    doc = '{"arr": [1, 2, 3, 4, 5, 6], "o": {"list": [5, 6, 7, 8, 9, 10]}}'
+    res = []
+    for stmt in ("%s %s= %s" % (target, op, rhs), "%s = %s %s (%s)" % (target, target, op, rhs)):
+        body = "%s\n r_ = (%s)\n print r_, %s" % (setup, stmt, show)
+        if rng_free_uses_doc(target) or host == "rule":
+            prog = kf + "{ %s }" % body
+            inp = doc
+        else:
+            prog = kf + "BEGIN { %s }" % body
+            inp = None
+        res.append((prog, inp, stmt))
+    return res
+
+
+def rng_free_uses_doc(target):
+    return target.startswith("$")
+
+
 # ---------------------------------------------------------------- the check
 
 class C09(Check):
@@ -368,7 +514,11 @@ class C09(Check):
             "on every kind of parent; after every statement the whole document and all variables are printed and compared with a "
             "Python reference of the creation rules; rules that only read (member / index chains, conditions, arithmetic, "
             "non-mutating methods, for-in) must leave the -o document equal to the input; sharing probes (scalars copied, containers "
-            "shared for element stores; length changes through an alias = F-C09-alias).  non-trivial = a store that creates an "
+            "shared for element stores; length changes through an alias = F-C09-alias); 2-3 root selectors picking equal / nested / "
+            "disjoint parts of one value x 1-4 writes (++, =, op=) under each root, every root printed before and after (a write "
+            "made under one root is not there under the next); compound assignments whose target has a side effect (i++, ++i, "
+            "n = n + 1, a function call, pop / popfirst, two indices) paired with the spelled-out a = a op b: same outcome, output "
+            "and document.  non-trivial = a store that creates an "
             "intermediate container, or a read of a missing location followed by a dump")
 
     def generate(self, rng, tier):
@@ -397,6 +547,30 @@ class C09(Check):
             k += 1
             inp = json.dumps(doc, ensure_ascii=False)
             cases.append(Case(cid, simple_run(cid, prog, [inp]), {"kind": "reads", "prog": prog, "input": inp, "stdout": exp}, True))
+        # several root selectors picking (mostly overlapping) parts of one value; writes under one root stay there
+        n = 260 if tier == "quick" else 5000
+        k = 0
+        while k < n:
+            sc = selectors_case(rng)
+            if sc is None:
+                continue
+            prog, sels, inp, exp, overlap = sc
+            cid = "m%d" % k
+            k += 1
+            cases.append(Case(cid, simple_run(cid, prog, [inp], sels), {"kind": "selectors", "prog": prog, "selectors": sels, "input": inp,
+                                                                        "stdout": exp}, overlap))
+        # compound assignment with a side effect in the target, next to its spelled-out form
+        reps = 4 if tier == "quick" else 60
+        k = 0
+        for rep in range(reps):
+            for kf, setup, target, op, rhs, show in compound_pairs(rng):
+                host = rng.choice(["begin", "rule"])
+                pair = compound_programs(kf, setup, target, op, rhs, show, host)
+                for which, (prog, inp, stmt) in zip(("compound", "spelled"), pair):
+                    cid = "c%d%s" % (k, which[0])
+                    cases.append(Case(cid, simple_run(cid, prog, [inp] if inp is not None else []),
+                                      {"kind": "compound", "pair": k, "which": which, "stmt": stmt, "prog": prog, "input": inp}, True))
+                k += 1
         reps = 3 if tier == "quick" else 40
         for rep in range(reps):
             for j, (prog, inp, exp, tags, slice_out) in enumerate(sharing_probes(rng)):
@@ -434,6 +608,16 @@ class C09(Check):
             except treeref.BadJson:
                 return None
             return self.cmp_json(impl.json, want, "document after reads only", exact=True)
+        if kind == "selectors":
+            got = impl.stdout.decode("utf-8", "replace")
+            if impl.outcome != "ok" or got != m["stdout"]:
+                w, g = m["stdout"].splitlines(), got.splitlines()
+                j = 0
+                while j < min(len(w), len(g)) and w[j] == g[j]:
+                    j += 1
+                return "selectors %s: every root is a value of its own; line %d: reference %r, implementation %r (%s)" % (
+                    " ".join("-r '%s'" % x for x in m["selectors"]), j + 1, w[j] if j < len(w) else "<end>", g[j] if j < len(g) else "<end>", impl.outcome)
+            return None
         if kind == "probe":
             exp = m["expect"]
             self.actual[case.id] = impl.stdout
@@ -457,6 +641,27 @@ class C09(Check):
         if not (treeref.same if exact else treeref.samenum)(got, want):
             return "%s is %s, reference %s" % (what, clip(json.dumps(got)), clip(json.dumps(want)))
         return None
+
+    def extra(self, ctx):
+        """`a op= b` and `a = a op b` side by side: same outcome, same output, same document"""
+        pairs = {}
+        for c in ctx["cases"]:
+            if c.meta.get("kind") == "compound":
+                pairs.setdefault(c.meta["pair"], {})[c.meta["which"]] = c
+        viol = []
+        for k, pr in sorted(pairs.items()):
+            if len(pr) != 2:
+                continue
+            a, b = RunRes(ctx["impl"].get(pr["compound"].id, [])), RunRes(ctx["impl"].get(pr["spelled"].id, []))
+            if a.outcome in ("timeout", "noresult", "crash") or b.outcome in ("timeout", "noresult", "crash"):
+                continue
+            if (a.outcome, a.stdout, a.json) != (b.outcome, b.stdout, b.json):
+                c = pr["compound"]
+                meta = dict(c.meta, spelled_out=pr["spelled"].meta["stmt"], spelled_out_prog=pr["spelled"].meta["prog"])
+                viol.append((Case(c.id, c.line, meta, True, c.tags),
+                             "`%s` gives %s %r but `%s` gives %s %r" % (c.meta["stmt"], a.outcome, a.stdout.decode("utf-8", "replace")[:120],
+                                                                      pr["spelled"].meta["stmt"], b.outcome, b.stdout.decode("utf-8", "replace")[:120])))
+        return viol, {"compound_pairs": len(pairs)}
 
     def known_finding(self, case, why):
         if "alias_length_change" in case.tags and case.meta.get("slice_stdout") is not None:
